@@ -1,1 +1,6 @@
 import HumphreyModel.Model.Glob
+import HumphreyModel.Spec.Glob
+import HumphreyModel.Props.C05
+import HumphreyModel.Props.C02
+import HumphreyModel.Driver.C02
+import HumphreyModel.Driver.C05
